@@ -336,3 +336,14 @@ func bigStruct() RecordSpec {
 	r.Fields = append(r.Fields, RecField{Name: "tail", Shape: geneval.Simple("int64")}, RecField{Name: "flag", Shape: geneval.Simple("bool")})
 	return r
 }
+
+
+// TextOnly folds File.Generate over one batch and returns the emitted text
+// without parsing it (used to compare folds that differ in map iteration order).
+func (g *Gen) TextOnly(recs []RecordSpec, o geneval.Options, reverseMaps bool) (text, genErr string, err error) {
+	g.In.Fuel = 200_000_000
+	g.In.ReverseMaps = reverseMaps
+	defer func() { g.In.ReverseMaps = false }()
+	f := g.fileFor(recs)
+	return g.B.GenerateFile(f, o)
+}
